@@ -1,7 +1,6 @@
 ---------------------------- MODULE MC_RegStore ----------------------------
 EXTENDS RegStore
 MCZeroOf(c) == 0
-Bit(a, n) == (a \div (2 ^ n)) % 2
-MCOr(a, b) == (IF Bit(a, 0) + Bit(b, 0) > 0 THEN 1 ELSE 0) + (IF Bit(a, 1) + Bit(b, 1) > 0 THEN 2 ELSE 0)
-\* the model's bound is not part of the architectural state; `last' is (it names the step the properties talk about)
+\* "or" of two tags: neutral on the zero tag, otherwise a value nobody wrote
+MCOr(a, b) == IF a = 0 THEN b ELSE IF b = 0 THEN a ELSE 64 * a + b
 =============================================================================
